@@ -160,6 +160,13 @@ def x_prog(ctx, case):
         ran = [e[2] for e in env.tags("cleanup_enter")]
         ctx.check(sorted(regs) == sorted(ran), "base.does-not-stop-cleanups",
                   lambda: {"registered": regs, "ran": ran, **detail()})
+        # ... fixtures included: what useFixture set up is torn down (also when the interrupt came while the fixture's
+        # details were being gathered)
+        interrupted = {r[1][4:] for r in raised if r[0] == "kbd" and str(r[1]).startswith("FXD:")}
+        fx_up = [e[2] for e in env.tags("fixture_setup") if e[2] in interrupted]
+        fx_down = [e[2] for e in env.tags("fixture_cleanup") if e[2] in interrupted]
+        ctx.check(sorted(fx_up) == sorted(fx_down), "base.does-not-stop-cleanups",
+                  lambda: {"fixtures set up": fx_up, "cleaned up": fx_down, **detail()})
     if case.get("rerun") and flavour not in ("stream", "none"):
         # (also after a run that an interrupt left through run(): the instance can be run again)
         # the same instance once more: again exactly one outcome, nothing left over from run 1
@@ -190,7 +197,7 @@ SUBCHECKS = {"prog": x_prog}
 
 FEATURES = ("own_exc", "expect", "force", "decor", "noupcall", "nested_cleanup", "truthy_return",
             "mismatch_details", "handlers", "clone", "xfail_decor", "eq_exc", "setup_returns", "details", "fixture",
-            "old_style_fixture", "base_handler")
+            "old_style_fixture", "base_handler", "bad_fixture_detail_kbd")
 
 
 def run(ctx):
